@@ -7,6 +7,7 @@ namespace constants
 def PacketTypeSize : Nat := 1
 def PacketBodySizeBytes : Nat := 4
 def MaxPacketBodySize : Nat := 16777216
+def DefaultChunkSize : Nat := 1024
 end constants
 
 namespace packet
